@@ -64,3 +64,28 @@ PROPS["C22"] = dict(
     level_text="Sampled schedules: every run's log is decided exactly by the offline checker, but only interleavings that the OS scheduler plus seeded delays produced are covered; their number is reported as distinct interleaving signatures.",
     level_note="Trusted base: hook placement (H2) and the checker in harness/src/wl/c22.rs. Interleavings inside std's channel/mutex are not controlled.",
 )
+
+PROPS["C07"] = dict(
+    title="Every supported stream filter decodes exactly what a reference encoder encoded",
+    level="exploration",
+    technique="round-trip oracle at the PdfStream::decode boundary: data encoded by independent encoders (zlib via flate2's encoder, weezl and an own LZW encoder for both EarlyChange settings, own ASCII85/ASCIIHex/RunLength encoders with legal white space and end markers, fax crate for CCITT G4, own PNG/TIFF predictor encoders) must decode to the original bytes; panic monitor",
+    stages=[rust()],
+    rule="random data textures (0..12k bytes quick / 40k thorough, incl. inputs that cross every LZW code-width boundary and force table resets) x chains of 1-3 filters x predictor {none,2,10..15} x colours 1-4 x bpc {1,2,4,8,16} x columns 1-64, plus CCITT G4 bitmaps (widths 1-200). Non-trivial: >=2 filters, or a predictor, or LZW input > 400 bytes, or CCITT; distinct by (chain, parameters, data hash)",
+    assumptions=["own encoders are validated on every run against weezl (LZW, identical output below the table-full boundary) and, for CCITT, against the fax crate's own decoder; a case the reference side cannot round-trip is inconclusive, never a violation",
+                 "only the last filter of a chain carries a predictor (its input must be whole rows)"],
+    floors={"quick": {"evaluations": 40_000, "distinct": 20_000}, "thorough": {"evaluations": 2_000_000, "distinct": 1_000_000}},
+    level_text="Sampled inputs over the whole stated parameter space with an exact oracle (byte equality); the evidence lists the (filter x predictor x bpc x colours) cells and chains actually exercised.",
+    level_note="Trusted base: flate2's encoder (zlib), weezl, fax, and the small own encoders in harness/src/gen/enc.rs. CCITT Group 3 is not generated (no independent G3 encoder available).",
+)
+
+PROPS["C08"] = dict(
+    title="Bounded decoding respects its limit and agrees with full decoding",
+    level="exploration",
+    technique="differential monitor between decode_with_limit(L) and decode() with L placed at, just below and just above every intermediate buffer size known from the reference encoding; length and panic monitors on garbage inputs with boundary-integer DecodeParms; decompression bombs around the 256 MiB ceiling (thorough)",
+    stages=[rust()],
+    rule="C07's reference-encoded cases x limits {0,1,each stage size-1/+0/+1,2x,usize::MAX,random}; verdicts: Ok(v) => len(v)<=L; L>=final size and Ok => equals decode(); L>=every stage size => must be Ok. Plus random/garbled data under random filter arrays and DecodeParms (panic and length only). Non-trivial: limit within [final-1, max stage+1]; distinct by (case, limit)",
+    assumptions=["if the final size fits but an intermediate buffer does not, both Ok(equal) and Err are accepted (the documentation applies the bound to every produced buffer)"],
+    floors={"quick": {"evaluations": 100_000, "distinct": 30_000}, "thorough": {"evaluations": 3_000_000, "distinct": 1_000_000}},
+    level_text="Sampled inputs; the oracle is exact for each (case, limit) pair because the stage sizes are known from the encoding side.",
+    level_note="Trusted base: the C07 encoders (stage sizes) and decode() itself as the differential partner.",
+)
